@@ -1,6 +1,7 @@
 package main
 
 import (
+	"sort"
 	"encoding/json"
 	"fmt"
 	"reflect"
@@ -72,6 +73,13 @@ func genOpbCaseMode(r *Rng, tier string, small bool) OpbCase {
 		n = r.Range(1, 4)
 		m = r.Range(1, 2)
 	}
+	// eqMode: one or two '=' lines with small positive coefficients and a small degree: the '<='
+	// half forces the heavy literals false and leaves work for the '>=' half
+	eqMode := !small && r.Chance(1, 6)
+	if eqMode {
+		n = r.Range(3, 6)
+		m = r.Range(1, 2)
+	}
 	var c OpbCase
 	var sb strings.Builder
 	if r.Chance(1, 2) {
@@ -106,11 +114,17 @@ func genOpbCaseMode(r *Rng, tier string, small bool) OpbCase {
 			sb.WriteString("* a comment line\n")
 		}
 		k := r.Range(1, min2(n, 5))
+		if eqMode {
+			k = r.Range(3, min2(n, 5))
+		}
 		lits := randClauseDistinct(r, n, k)
 		ws := make([]int, k)
 		lo, hi := 0, 0
 		for j := range ws {
 			ws[j] = r.Range(-5, 5)
+			if eqMode {
+				ws[j] = r.Range(1, 3)
+			}
 			if ws[j] > 0 {
 				hi += ws[j]
 			} else {
@@ -118,10 +132,13 @@ func genOpbCaseMode(r *Rng, tier string, small bool) OpbCase {
 			}
 		}
 		kind := "gteq"
-		if r.Chance(1, 3) {
+		if r.Chance(1, 3) || eqMode {
 			kind = "eq"
 		}
 		deg := r.Range(lo-1, hi+1)
+		if eqMode {
+			deg = r.Range(1, 3)
+		}
 		c.Constrs = append(c.Constrs, Constr{Kind: kind, Lits: lits, Weights: ws, N: deg})
 		for j := range ws {
 			if j > 0 {
@@ -273,7 +290,23 @@ func compareParsed(o *Oracle, oc *Outcome, entry string, pb *solver.Problem, n i
 		oc.Fail("spec", "parsed-same-models", entry, "text has %d models over %d variables, parsed problem (units %v + %d constraints) has %d", len(want), n, pb.Units, len(pb.Clauses), len(have))
 		return
 	}
-	// then solve what was parsed: the verdict and the model must be the text's
+	// then solve what was parsed: the verdict and the model must be the text's; when the parsed
+	// problem declares exactly the text's variables, all its models are enumerated instead and must
+	// be the text's (a constraint kept in a form the solver does not enforce shows here, not in
+	// the read-back above)
+	if pb.NbVars == n && len(want) <= 256 && pb.Status != solver.Unsat {
+		er := runEnumerate(solver.New(pb), 16, nil)
+		gotM := append([]string(nil), er.models...)
+		sort.Strings(gotM)
+		wantM := append([]string(nil), want...)
+		sort.Strings(wantM)
+		if !equalStrings(gotM, wantM) {
+			dup, extra, missing := diffModels(gotM, wantM)
+			oc.Fail("spec", "parsed-then-solved", entry+"+Enumerate", "the parsed problem has %d models, the text %d: duplicated %v, not models of the text %v, missing %v", len(gotM), len(wantM), dup, extra, missing)
+		}
+		oc.Tag("parsed-then-enumerated")
+		return
+	}
 	s := solver.New(pb)
 	st := s.Solve()
 	if (st == solver.Sat) != (len(want) > 0) || (st != solver.Sat && st != solver.Unsat) {
